@@ -56,6 +56,7 @@ def build(desc, s, w, ctx):
     for li, (kind, p) in enumerate(desc["layers"]):
         p = p or {}
         nm = "L%d" % li
+        s.ev("ctor>", nm, kind)
         if kind == "map":
             fn = w.fn("mapfn%d" % li, p.get("script"), default=(("retarg",),))
             efn = w.fn("errfn%d" % li, p.get("escript"), default=(("reraise",),)) if p.get("errfn") else None
@@ -94,6 +95,7 @@ def build(desc, s, w, ctx):
             ex = CancelOnShutdownExecutor(ex, name=nm)
         else:
             raise ValueError(kind)
+        s.ev("ctor<", nm, kind)
         ctx.execs.append(ex)
     ctx.top = ex
     return ex
